@@ -24,15 +24,16 @@ import (
 func init() { register("fallback", 16, runFallback) }
 
 type fbServer struct {
-	uc      *net.UDPConn
-	tl      net.Listener
-	udpMode string
-	tcpMode string
-	udpQ    atomic.Int32
-	tcpQ    atomic.Int32
-	mu      sync.Mutex
-	udpWire []byte
-	tcpWire []byte
+	uc       *net.UDPConn
+	tl       net.Listener
+	udpMode  string
+	tcpMode  string
+	udpDelay time.Duration
+	udpQ     atomic.Int32
+	tcpQ     atomic.Int32
+	mu       sync.Mutex
+	udpWire  []byte
+	tcpWire  []byte
 }
 
 func listenPair() (*net.UDPConn, net.Listener, error) {
@@ -64,6 +65,16 @@ func (s *fbServer) serveUDP() {
 		s.mu.Lock()
 		s.udpWire = q
 		s.mu.Unlock()
+		if s.udpDelay > 0 && (s.udpMode == "plain" || s.udpMode == "tc") {
+			// a slow server: the reply comes well inside the caller's deadline, seconds after the last datagram the
+			// socket has seen (nothing else keeps the socket's read deadline moving)
+			mode := s.udpMode
+			go func() {
+				time.Sleep(s.udpDelay)
+				s.uc.WriteToUDP(hx.BuildReply(q, mode == "tc", 0, [4]byte{1, 1, 1, map[bool]byte{false: 1, true: 2}[mode == "tc"]}, 60), addr)
+			}()
+			continue
+		}
 		switch s.udpMode {
 		case "plain":
 			s.uc.WriteToUDP(hx.BuildReply(q, false, 0, [4]byte{1, 1, 1, 1}, 60), addr)
@@ -142,6 +153,9 @@ func runFallback(id string, parts []string) string {
 		return "HARNESS-ERROR " + err.Error()
 	}
 	s := &fbServer{uc: uc, tl: tl, udpMode: f["udp"], tcpMode: f["tcp"]}
+	if f["ud"] != "" {
+		s.udpDelay = time.Duration(hx.MustAtoi(f["ud"])) * time.Millisecond
+	}
 	go s.serveUDP()
 	go s.serveTCP()
 	defer uc.Close()
